@@ -14,7 +14,11 @@ EXTENDS Integers, Sequences, TLC, Json
 
 CONSTANTS Dev, Emit
 
-Endings == {"normal", "throw-user", "throw-user-in-func", "runtime-error", "exit0", "exit3", "parse-error", "parse-error-late"}
+\* throw-handler-*: the uncaught throwable meets a handler registered with set_exception_handler -- a closure,
+\* a function name, null (= no handler).  Whatever the handler is, the script ENDS with an uncaught throwable:
+\* something is printed for it (the handler's own output or the default diagnostic) and the status is non-zero.
+Endings == {"normal", "throw-user", "throw-user-in-func", "runtime-error", "exit0", "exit3", "parse-error", "parse-error-late",
+            "throw-handler-closure", "throw-handler-name", "throw-handler-null", "throw-in-finally-chain"}
 
 VARIABLES ending, nEcho, phase, stdout, diag, status
 vars == <<ending, nEcho, phase, stdout, diag, status>>
@@ -33,7 +37,8 @@ Echo == /\ phase = "run" /\ Len(stdout) < nEcho
         /\ stdout' = Append(stdout, "t" \o ToString(Len(stdout) + 1)) /\ UNCHANGED <<ending, nEcho, phase, diag, status>>
 End == /\ phase = "run" /\ Len(stdout) = nEcho /\ phase' = "exited"
        /\ CASE ending = "normal" -> diag' = FALSE /\ status' = 0
-            [] ending \in {"throw-user", "throw-user-in-func", "runtime-error"} -> diag' = TRUE /\ status' = 1
+            [] ending \in {"throw-user", "throw-user-in-func", "runtime-error",
+                            "throw-handler-closure", "throw-handler-name", "throw-handler-null", "throw-in-finally-chain"} -> diag' = TRUE /\ status' = 1
             [] ending = "exit0" -> diag' = FALSE /\ status' = 0
             [] ending = "exit3" -> diag' = FALSE /\ status' = 3
        /\ UNCHANGED <<ending, nEcho, stdout>>
@@ -43,7 +48,8 @@ Report == /\ phase = "exited" /\ phase' = "reported"
 Next == Parse \/ Echo \/ End \/ Report
 Spec == Init /\ [][Next]_vars
 
-Failed == IsParseError \/ ending \in {"throw-user", "throw-user-in-func", "runtime-error"}
+Failed == IsParseError \/ ending \in {"throw-user", "throw-user-in-func", "runtime-error",
+                                       "throw-handler-closure", "throw-handler-name", "throw-handler-null", "throw-in-finally-chain"}
 \* failures exit non-zero with a diagnostic; everything echoed before the failure is on stdout
 NonZeroOnFailure == phase \in {"exited", "reported"} => ((Failed => (status # 0 /\ diag)) /\ (~Failed => ~diag))
 FlushBeforeExit  == phase \in {"exited", "reported"} /\ ~IsParseError => Len(stdout) = nEcho
